@@ -62,7 +62,7 @@ def run_one(sid, tier):
 
 def main():
     tier = "quick"
-    args = [a for a in sys.argv[1:]]
+    args = [a for a in sys.argv[1:] if a != "--keep"]
     if "--tier" in args:
         i = args.index("--tier")
         tier = args[i + 1]
